@@ -4,6 +4,7 @@ from sa import cfg
 from sa.cfg import BranchFacts, canon, cond_atoms
 from sa.flow import arg_nodes, mentions
 from sa.lockset import LockSets, entry_locksets, field_accesses
+from sa.callgraph import CallGraph
 
 ENGINE = "BuildEngineImpl"
 KILL = ("BuildEngineImpl::", "RuleInfo::")
@@ -262,6 +263,9 @@ def r_dep_record(prog, rep):
                  "on the producing task", floor=4)
     f = efn(prog, "executeTasks")
     dep = [c for c in f.calls("DependencyKeyIDs::push_back")]
+    if not dep:
+        r.violation("executeTasks|dependency-recorded", "a task's input request is never recorded as a dependency of the requesting rule", f)
+        return
     if len(dep) != 1:
         raise AnalysisBroken("executeTasks: %d dependency push_back sites" % len(dep))
     d = dep[0]
@@ -306,6 +310,9 @@ def r_discovered_append(prog, rep):
     f = efn(prog, "executeTasks")
     app = f.calls("DependencyKeyIDs::append")
     sr = f.calls("BuildDB::setRuleResult")
+    if not sr:
+        r.violation("executeTasks|result-persisted", "a finished task's result is never written to the attached database", f)
+        return
     if len(sr) != 1:
         raise AnalysisBroken("executeTasks: setRuleResult=%d" % len(sr))
     if len(app) != 1:
@@ -637,6 +644,9 @@ def r_orderonly_guard(prog, rep):
     f = efn(prog, "processRuleScanRequest")
     bf = BranchFacts(f, kill_calls_of=KILL)
     cmps = [n for n in f.nodes if n.get("k") == "bin" and n["op"] in ("<", ">", "<=", ">=") and "computedAt" in expr_str(n)]
+    if not cmps:
+        r.violation("processRuleScanRequest|not-order-only", "the scan no longer compares builtAt with the input's computedAt: a changed input never re-runs its dependents", f)
+        return
     if len(cmps) != 1:
         raise AnalysisBroken("processRuleScanRequest: %d staleness comparisons" % len(cmps))
     r.check(has(facts_at(bf, cmps[0]), "request.orderOnly", False), "processRuleScanRequest|not-order-only", "",
@@ -892,6 +902,9 @@ def r_protocol_order(prog, rep):
     st_ = f.calls("Task::start")
     pv = f.calls("Task::providePriorValue")
     rd = [c for c in f.calls("push_back") if expr_str(c.child("obj")) == "readyTaskInfos"]
+    if not st_ or not pv or not rd:
+        r.violation("demandRule|start-before-prior-value", "demandRule no longer %s" % ("starts the task" if not st_ else "offers the prior value" if not pv else "readies a task without inputs"), f)
+        return
     if len(st_) != 1 or len(pv) != 1 or len(rd) != 1:
         raise AnalysisBroken("demandRule: start=%d prior=%d ready=%d" % (len(st_), len(pv), len(rd)))
     r.check(cfg.dominated_by(f, cfg.pos_of(f, pv[0]), lambda p, e: cfg.elem_node(f, e) is st_[0])[0], "demandRule|start-before-prior-value", "", "providePriorValue reachable before start", f, pv[0])
@@ -1035,6 +1048,9 @@ def r_cycle_trigger(prog, rep):
     f = efn(prog, "executeTasks")
     bf = BranchFacts(f, kill="assign")
     rc = f.calls(ENGINE + "::resolveCycle")
+    if not rc:
+        r.violation("executeTasks|cycle-only-when-stuck", "a stalled build is never handed to resolveCycle: a dependency cycle is not detected", f)
+        return
     if len(rc) != 1:
         raise AnalysisBroken("executeTasks: resolveCycle sites = %d" % len(rc))
     st = facts_at(bf, rc[0])
@@ -1451,3 +1467,90 @@ def r_scan_waits(prog, rep):
             st = facts_at(bf, c)
             ok = ok and suspended_when("isAvailable", c, [{OO: False}]) and suspended_when("isScanned", c, [{OO: False}]) and has(st, "orderOnly", False)
     r.check(ok, "processRuleScanRequest|input-rebuilt-needs-available-value-input", "", "InputRebuilt is decided for an input that is order-only or not yet available", f)
+
+
+def r_waitcount(prog, rep):
+    r = rep.rule("R-WAITCOUNT", "request conservation: a task's wait count is raised once per queued input request and lowered once per request delivered; a "
+                                "request taken off the input queue is parked in exactly one place (the input's scan record, the input's running task, or the "
+                                "finished list) unless it is the task-less build request; every request taken off the finished list lowers the count of its "
+                                "task exactly once, after the value was provided (a lost or doubled request means inputs-available never or too early)", floor=6)
+    WC = "waitCount"
+    writes = []
+    for f in engine_functions(prog):
+        for n in f.nodes:
+            if n.get("k") == "un" and n.get("op", "").replace("post", "") in ("++", "--") and expr_plain(n.child("e")).endswith(WC):
+                writes.append((f.name.split("::")[-1], n["op"].replace("post", "")))
+            elif n.get("k") == "bin" and n.get("op", "").endswith("=") and n["op"] not in ("==", "!=", "<=", ">=") and expr_plain(n.child("l")).endswith(WC):
+                writes.append((f.name.split("::")[-1], n["op"]))
+    r.check(sorted(writes) == [("addTaskInputRequest", "++"), ("decrementTaskWaitCount", "--")], "waitCount|writers", "%s" % sorted(writes),
+            "the wait count is written by %s" % sorted(writes))
+    cg = CallGraph(prog)
+    callers = sorted(set(f.name.split("::")[-1] for f, c in cg.callers_of(ENGINE + "::decrementTaskWaitCount")))
+    r.check(callers == ["executeTasks"], "decrementTaskWaitCount|callers", "%s" % callers, "the wait count is lowered from %s" % callers)
+    ex = efn(prog, "executeTasks")
+    # --- input queue: popped request is parked exactly once
+    pop = [c for c in ex.calls("pop_front") if expr_plain(c.child("obj")) == "inputRequests"]
+    parks = [c for c in ex.calls("push_back") if expr_plain(arg_nodes(c)[0]) == "request" and
+             any(t in expr_str(c.child("obj")) for t in ("pausedInputRequests", "requestedBy", "finishedInputRequests"))]
+    ok = len(pop) == 1 and len(parks) == 3
+    w1 = w2 = None
+    if ok:
+        pp = ex.elem_pos()[pop[0]["id"]]
+        pk = set(ex.elem_pos()[c["id"]] for c in parks)
+        # the task-less request leaves through `if (!request.taskInfo) continue;`
+        dummy = set()
+        for n in ex.nodes:
+            if n.get("k") == "if" and expr_plain(n.child("c")).replace(" ", "") in ("(!request.taskInfo)", "!request.taskInfo"):
+                for x in n.child("then").walk():
+                    if x.get("k") == "continue" and x["id"] in ex.elem_pos():
+                        dummy.add(ex.elem_pos()[x["id"]])
+        # the `found` flag: nothing popped -> break
+        nf = set()
+        for n in ex.nodes:
+            if n.get("k") == "if" and expr_plain(n.child("c")).replace(" ", "") in ("(!found)", "!found"):
+                for x in n.child("then").walk():
+                    if x.get("k") == "break" and x["id"] in ex.elem_pos():
+                        nf.add(ex.elem_pos()[x["id"]])
+        # "a request was taken": the false successor of `if (!found) break;` (found is set only next to the pop)
+        taken = set()
+        for n in ex.nodes:
+            if n.get("k") == "if" and expr_plain(n.child("c")).replace(" ", "") in ("(!found)", "!found"):
+                for b in ex.blocks.values():
+                    if b.term is not None and b.term.get("cls") == "IfStmt" and b.cond() is not None and b.cond()["id"] == n["c"] and len(b.succs) == 2:
+                        taken.add(b.succs[1])
+        fw = [n for n in ex.nodes if n.get("k") == "bin" and n["op"] == "=" and expr_plain(n.child("l")) == "found"]
+        src_ok = len(taken) == 1 and len(fw) == 1 and core(fw[0].child("r")).get("v") is True and ex.elem_pos()[fw[0]["id"]][0] == pp[0]
+        if src_ok:
+            tk = list(taken)[0]
+            w1 = cfg.path_exists(ex, (tk, -1), lambda p, e: e == "EXIT" or p == pp, avoid=lambda p, e: p in pk or p in dummy)
+            for k in pk:
+                w2 = w2 or cfg.path_exists(ex, k, lambda p, e: p in pk, avoid=lambda p, e: p[0] == tk)
+        ok = src_ok and w1 is None and w2 is None and len(dummy) == 1 and len(nf) == 1
+    r.check(ok, "executeTasks|input-request-parked-exactly-once", "", "a request taken off the input queue can be dropped (%s) or parked twice (%s)" % (w1, w2), ex, path=w1 or w2)
+    # --- finished list: one decrement per popped request
+    fpop = [c for c in ex.calls("pop_back") if expr_plain(c.child("obj")) == "finishedInputRequests"]
+    dec = ex.calls(ENGINE + "::decrementTaskWaitCount")
+    pvs = [c for c in ex.calls() if (c.get("fn") or "").endswith("Task::provideValue")]
+    ok = len(fpop) == 1 and len(dec) == 1 and len(pvs) == 1 and expr_plain(arg_nodes(dec[0])[0]) == "request.taskInfo"
+    if ok:
+        fp, dp, vp = ex.elem_pos()[fpop[0]["id"]], ex.elem_pos()[dec[0]["id"]], ex.elem_pos()[pvs[0]["id"]]
+        ok = cfg.path_exists(ex, fp, lambda p, e: e == "EXIT" or p == fp, avoid=lambda p, e: p == dp) is None and \
+            cfg.path_exists(ex, dp, lambda p, e: p == dp, avoid=lambda p, e: p == fp) is None and \
+            cfg.path_exists(ex, dp, lambda p, e: p == vp, avoid=lambda p, e: p == fp) is None
+        bf = BranchFacts(ex, kill="assign")
+        ok = ok and has(facts_at(bf, pvs[0]), "request.orderOnly", False)
+    r.check(ok, "executeTasks|finished-request-counted-once-after-value", "", "a finished input request does not lower its task's wait count exactly once after the value was provided", ex)
+    # --- the containers that park requests are all drained into the finished list / input queue
+    sinks = {"pausedInputRequests": "inputRequests", "requestedBy": "finishedInputRequests"}
+    for src, dst in sinks.items():
+        moved = False
+        for f in engine_functions(prog):
+            for c in f.calls():
+                nm = (c.get("fn") or "").split("::")[-1]
+                if nm in ("insert", "push_back") and "obj" in c and expr_plain(c.child("obj")).endswith(dst) and any(src in expr_str(a) for a in arg_nodes(c) if a is not None):
+                    moved = True
+            for n in f.nodes:
+                if n.get("k") == "forrange" and src in expr_str(n.child("range")) and any(
+                        x.get("k") == "call" and (x.get("fn") or "").split("::")[-1] == "push_back" and "obj" in x and expr_plain(x.child("obj")).endswith(dst) for x in n.walk()):
+                    moved = True
+        r.check(moved, "%s|drained-into-%s" % (src, dst), "", "requests parked in %s are never moved to %s" % (src, dst))
